@@ -57,6 +57,17 @@ def witnesses(reg, pull):
     return pts
 
 
+class _Comm(object):
+    def __init__(self):
+        self.sent = []
+
+    def isStreaming(self):
+        return False
+
+    def sendCommand(self, cmd, **kw):
+        self.sent.append(cmd)
+
+
 class ApiViolation(BaseException):
     pass
 
@@ -81,6 +92,8 @@ class ApiWorld(object):
         self.abs_states = set()
         self.op_index = -1
         self.auto = 0
+        self._invalid_settings = False
+        self.comm = _Comm()
 
     def fail(self, clause, msg):
         if self.viol is None:
@@ -92,6 +105,11 @@ class ApiWorld(object):
         return hashlib.sha256(json.dumps(self.log, sort_keys=True, default=str).encode()).hexdigest()
 
     # ---------------------------------------------------------------------------------------------
+    def in_excluded_area(self, x, y):
+        """Membership in the currently defined excluded area (whether or not exclusion is switched on by an
+        @-command at the moment: the area is what C12 protects)."""
+        return any(r.containsPoint(x, y) for r in self.plugin.state.excludedRegions)
+
     def plugin_list(self):
         with _APP.app_context():
             got = self.plugin.on_api_get(None).get_json()
@@ -115,7 +133,10 @@ class ApiWorld(object):
             self.stats["probe:cleared_by_" + ev] += 1
         self.log.append(["ev", ev, exc])
         if exc is not None:
-            self.fail("event_raise", "event %s raised %s" % (ev, exc))
+            if ev == Events.SETTINGS_UPDATED and self._invalid_settings:
+                self.stats["probe:settings_update_raised_on_invalid_entry"] += 1   # the host logs it and goes on
+            else:
+                self.fail("event_raise", "event %s raised %s" % (ev, exc))
         self.check_registry("event %s" % ev, before, changed_by_event=(before != self.model))
 
     # ---------------------------------------------------------------------------------------------
@@ -166,9 +187,33 @@ class ApiWorld(object):
         elif k == "settings":
             for key, v in op["set"].items():
                 seams.SETTINGS.set(["plugins", "excluderegion", key], v, force=True)
+            # the undigestible entry stays in the stored settings, so later updates raise as well
+            self._invalid_settings = self._invalid_settings or bool(op.get("invalid"))
+            if op.get("invalid"):
+                self.stats["fault:settings_invalid_entry"] += 1
             self.bus.fire(Events.SETTINGS_UPDATED)
             self.bus.deliver_all()
             self.stats["fault:settings_flip"] += 1
+        elif k == "at":
+            # an @-command of the running job passes through the hook (it may switch exclusion off and on)
+            before = [dict(r) for r in self.model]
+            try:
+                self.plugin.handleAtCommandQueuing(self.comm, "queuing", op["cmd"], op["params"], tags=set())
+            except Exception as ex:
+                self.log.append(["at_exc", str(ex)])
+            self.stats["fault:at_command"] += 1
+            self.check_registry("@%s %s" % (op["cmd"], op["params"]), before)
+        elif k == "gcode":
+            # job traffic through the queuing hook: must never change the registry or its order
+            from octoprint.util.comm import gcode_and_subcode_for_cmd
+            before = [dict(r) for r in self.model]
+            g, sc = gcode_and_subcode_for_cmd(op["text"])
+            try:
+                self.plugin.handleGcodeQueuing(self.comm, "queuing", op["text"], None, g, subcode=sc, tags=set())
+            except Exception as ex:
+                self.log.append(["gcode_exc", str(ex)])
+            self.stats["fault:job_traffic"] += 1
+            self.check_registry("gcode %s" % op["text"], before)
         elif k == "api_get":
             before = [dict(r) for r in self.model]
             self.check_registry("GET", before)
@@ -227,7 +272,7 @@ class ApiWorld(object):
                 involves_circle = (nr["type"] == "CircularRegion" or op["data"].get("type") == "CircularRegion")
                 pull = 1e-9 * scale if involves_circle else 0.0
                 for (x, y) in witnesses(nr, pull):
-                    if st.isPointExcluded(x, y):
+                    if self.in_excluded_area(x, y):
                         wit.append((x, y))
             self.stats["witness_points"] += len(wit)
         seams.USER.anon = bool(op.get("anon"))
@@ -275,7 +320,7 @@ class ApiWorld(object):
                 else:
                     self.stats["probe:restricted_refused"] += 1
                 for (x, y) in wit:
-                    if not st.isPointExcluded(x, y):
+                    if not self.in_excluded_area(x, y):
                         self.fail("shrunk", "%s %r (answer %r): point (%r, %r) was excluded before the request "
                                   "and is not excluded after it (regions before %r, after %r)"
                                   % (op["cmd"], op["data"], got, x, y, before_list, after_list))
